@@ -1,0 +1,5 @@
+//go:build !verif
+
+package subscribe
+
+func verifAt(string, interface{}) {}
